@@ -115,7 +115,7 @@ def run_lp(spec, opts, workdir, rng, inject=True, noise=True, second_side=None,
         os.utime(path, ns=(st0.st_atime_ns, st0.st_mtime_ns))     # exactly the old time stamps (as cp -p would leave)
     if argv is None:
         argv = ['-f', path, '-na', str(spec['na'])] + sp.opts_to_argv(opts, rng)
-    ex = {'spec': spec, 'opts': opts, 'argv': argv, 'text': text, 'exc': None,
+    ex = {'spec': spec, 'opts': opts, 'argv': argv, 'text': text, 'exc': None, 'solve_kwargs': dict(solve_kwargs or {}),
           'sysexit': None, 'short': None, 'long': None, 'debug': None,
           'events': [], 'prob': None, 'solver': None, 'second_side': second_side}
     TAP.reset()
@@ -261,6 +261,12 @@ def judge_lp(ex, ref, probe_cap=0, probe_rng=None, counters=None):
         facts['backend_fault'] = True
         return fs, facts
 
+    unc = [ev['uncertified'] for ev in ex['events'] if ev.get('uncertified')]
+    if unc:
+        # owned by C03 (each criterion reaches its optimum) and reported under the other optimisation properties too
+        for pid in ('C03', 'C02', 'C04', 'C05'):
+            fs.append(F(pid, 'backend_certificate', 'the back end was run with %s (solve keywords %s): its status Optimal does not '
+                        'certify an optimum' % (unc[0], ex.get('solve_kwargs')), kwargs=ex.get('solve_kwargs')))
     # ---- client boundary: exceptions (C02 owns "never errors")
     if ex['sysexit'] is not None:
         fs.append(F('C02', 'no_exception', 'admissible option set refused with SystemExit(%r)' % (ex['sysexit'],)))
